@@ -253,6 +253,8 @@ pub(crate) enum ExprErrorKind {
     UnexpectedValueForSignal(String, OutputValue),
     #[error("Division by zero")]
     DivisionByZero,
+    #[error("random({0}) has an empty range")]
+    EmptyRandomRange(i64),
 }
 
 /// Could not construct static iterator
